@@ -969,3 +969,4 @@ META = {
 }
 
 META['explanation'] += ' ' + "Further: loader completeness (the only skipped lines are the loader's error recovery)."
+META['explanation'] += ' ' + 'Round 14: neither terminal loader rewrites a probability or drops a line because of its probability (1.0 of a single-value file, 0.0).'
